@@ -206,8 +206,8 @@ func expectKindsRec(reg string, idents []int, evs []event) (string, string) {
 		switch e.letter {
 		case 'e', 't', 'f':
 			out[j] = e.letter
-		case 'x', 'r':
-			// r: handled and recorded, but nothing is sent: never on record afterwards
+		case 'x', 'r', 'w':
+			// r, w: handled and recorded, but nothing is sent: never on record afterwards
 			out[j] = '-'
 		case 'n', 'q':
 			id := idents[e.src]
@@ -230,7 +230,7 @@ func expectKindsRec(reg string, idents []int, evs []event) (string, string) {
 	onrec := make([]byte, len(evs))
 	for j, e := range evs {
 		switch {
-		case e.letter != 'n' && e.letter != 'q' && e.letter != 'r':
+		case e.letter != 'n' && e.letter != 'q' && e.letter != 'r' && e.letter != 'w':
 			onrec[j] = '-'
 		case rec[idents[e.src]][j]:
 			onrec[j] = '1'
@@ -329,6 +329,12 @@ func (g *genState) randomHist(r *lib.Rand, kind, reg string, n int) hist {
 			perIdent[id]++
 			h.evs = append(h.evs, fmt.Sprintf("r%d", src))
 			g.c.Count("ev:ntp-unsent-irreversible-path")
+			ntpEv = append(ntpEv, j)
+		case x >= 46 && x < 54 && src < 8 && perIdent[id] < 7:
+			// a valid request from UDP source port 0: handled, recorded, the write of the reply fails
+			perIdent[id]++
+			h.evs = append(h.evs, fmt.Sprintf("w%d", src))
+			g.c.Count("ev:ntp-unsent-write-error")
 			ntpEv = append(ntpEv, j)
 		case x < 36:
 			h.evs = append(h.evs, fmt.Sprintf("x%d", src))
@@ -551,6 +557,12 @@ func gen(c *lib.Ctx) {
 		{"scion", "0", "n0:b,r0,n0:1,n0:0,n0:3"},
 		{"scion", "01", "n0:b,r1,n1:1,r0,n0:3,n0:0,q1:1"},
 		{"scion", "0", "n0:b,n0:0,r0,e0,q0:2,n0:2,n0:1"},
+		// the same through a failing write: request from UDP source port 0
+		{"ip", "0", "w0,n0:0"},
+		{"ip", "0", "n0:b,w0,n0:1,n0:0,n0:3"},
+		{"ip", "01", "n0:b,w1,n1:1,w0,n0:3,n0:0,q1:1"},
+		{"scion", "0", "w0,n0:0"},
+		{"scion", "01", "n0:b,w1,r0,n1:1,n0:2,n0:0"},
 	}
 	for _, reg := range regs {
 		for _, k := range corpus {
